@@ -117,7 +117,7 @@ def concretize_int(world, ex, e, lo, hi, what="int-bound"):
 
 def args_list(world, ex, av):
     k = concretize_len(world, ex, av.n)
-    full = [S.arg(av.n, S.K(i)) for i in range(k)]
+    full = [world.touch(ex, S.arg(av.n, S.K(i))) for i in range(k)]
     return full
 
 
@@ -177,13 +177,13 @@ def _is_pow2_minus1(e):
     if z3.is_add(e) and len(e.children()) == 2:
         a, b = e.children()
         for x, y in ((a, b), (b, a)):
-            if z3.is_int_value(x) and x.as_long() == -1 and z3.is_app(y) and y.decl().eq(S.pow2):
+            if z3.is_int_value(x) and x.as_long() == -1 and z3.is_app(y) and y.decl().eq(S.pow2.f):
                 return y.arg(0)
     return None
 
 
 def _is_pow2(e):
-    if is_z3(e) and z3.is_app(e) and e.decl().eq(S.pow2):
+    if is_z3(e) and z3.is_app(e) and e.decl().eq(S.pow2.f):
         return e.arg(0)
     if isinstance(e, int) and e > 0 and e & (e - 1) == 0:
         return z3.IntVal(e.bit_length() - 1)
@@ -313,6 +313,8 @@ def binop(world, ex, opname, a, b):
         used("int.<<")
         if ex.decide(ib < 0):
             raise PyRaise(ExcVal("ValueError", ("negative shift count",)))
+        if isinstance(a, int) and a == 1:
+            return S.pow2(ib)
         return ia * S.pow2(ib)
     if opname == ">>":
         used("int.>>")
@@ -652,8 +654,7 @@ def length(world, ex, v):
         return len(v.items)
     if isinstance(v, ArgsView):
         if v.lo == 0 and v.step == 1:
-            _, k = world.known(ex, v.n)
-            return k if k is not None else S.nargs(v.n)
+            return concretize_len(world, ex, v.n)
         return len(iterate(world, ex, v))
     if isinstance(v, QVars):
         return S.nqv(v.n)
@@ -803,14 +804,12 @@ def getitem(world, ex, o, k):
             if isinstance(k, int) and k >= 0:
                 if not ex.decide(z3.IntVal(k) < S.nargs(o.n)):
                     raise PyRaise(ExcVal("IndexError"))
-                return S.arg(o.n, S.K(k))
+                return world.touch(ex, S.arg(o.n, S.K(k)))
             if isinstance(k, int) and k < 0:
-                if not ex.decide(S.nargs(o.n) + k >= 0):
+                kk = concretize_len(world, ex, o.n)
+                if kk + k < 0:
                     raise PyRaise(ExcVal("IndexError"))
-                _, kk = world.known(ex, o.n)
-                if kk is not None:
-                    return S.arg(o.n, S.K(kk + k))
-                return S.arg(o.n, S.nargs(o.n) + k)
+                return world.touch(ex, S.arg(o.n, S.K(kk + k)))
             if is_sym_int(k):
                 if not ex.decide(z3.And(k >= 0, k < S.nargs(o.n))):
                     raise Unsupported("symbolic child index out of range / negative")
